@@ -664,6 +664,8 @@ class RepositoryMachine(Machine):
         for ck, (key, val) in offered.items():
             c.pending_info[ck] = {"fam": fam, "root": root, "key": key}
         if raised is None:
+            for other in {m["fam"] for m in c.model.values()}:
+                env.stats.add("family_written_while_family_stored", "%s>%s" % (fam, other))
             for ck, (key, val) in offered.items():
                 c.model[ck] = {"fam": fam, "root": root, "key": key, "value": val, "payload": payloads[ck]}
             self._audit(c, env, "%s %s" % (op["op"], fam))
